@@ -1,7 +1,50 @@
-//! EldersForceIndex — reference model (TODO).
+//! Elder's Force Index. Doc: 1 value — `Main value`; linked formula (wikipedia / investopedia):
+//!   force = (current close − prior close) · volume, smoothed by a moving average (EMA(13)).
+//!   Config: `ma` = the smoothing average, `period2` = "Price change period" k (default 1),
+//!   `source` = the price that is differenced. So
+//!     value = MA( (src_t − src_{t−k}) · V_t ).
+//! 1 signal — `main value` crosses the zero line upwards: full buy; downwards: full sell.
 use super::*;
 
-/// returns None until the reference is written
-pub fn make(_cfg: &Cfg, _c0: &RC) -> Option<Box<dyn IndRef>> {
-	None
+#[derive(Clone)]
+pub struct EldersForceIndex {
+	src: String,
+	k: usize,
+	hist: crate::Ser,
+	vol: rm::Win,
+	ma: Box<dyn rm::RefVV>,
+	x: CrossD,
+}
+
+pub fn make(cfg: &Cfg, c0: &RC) -> Option<Box<dyn IndRef>> {
+	let src = cfg.src("source");
+	let k = cfg.int("period2");
+	let s0 = source(c0, &src);
+	Some(Box::new(EldersForceIndex {
+		hist: crate::Ser::with_cap(s0, k + 2),
+		// † follows the implementation: for a price change over k > 1 candles the documentation does not
+		// say which volume multiplies it; the implementation uses the total volume of the last k candles
+		// (the current one included), which for k = 1 is the documented "current volume".
+		vol: rm::Win::new(rm::WinKind::Integral, k, c0.v),
+		// a price change of the constant prehistory is 0, so the force is 0 and its average starts at 0
+		ma: cfg.ma_ref("ma", Q::exact(0.0)),
+		// previous difference in the prehistory: value − 0 = 0
+		x: CrossD::new(0.0),
+		src,
+		k,
+	}))
+}
+
+impl IndRef for EldersForceIndex {
+	fn values(&mut self, c: &RC) -> Vec<Q> {
+		let s = source(c, &self.src);
+		self.hist.push(s);
+		let change = self.hist.back(0) - self.hist.back(self.k);
+		let volume = self.vol.step(Q::exact(c.v));
+		vec![self.ma.stepq(change * volume)]
+	}
+	fn signals(&mut self, _c: &RC, own: &[f64]) -> Vec<Sig> {
+		vec![sig_sign(self.x.cross(own[0], 0.0))]
+	}
+	indref!(EldersForceIndex);
 }
